@@ -144,7 +144,17 @@ func scope(p *prog.Program, sc string, w *strings.Builder, ind string, o Options
 		}
 		fmt.Fprintf(w, "%s</bpmn:%s>\n", ind, t)
 	}
-	for _, f := range p.Flows {
+	// (a program tagged "flows-reversed" has its sequenceFlow elements written in reverse: the order
+	// in which a node takes its outgoing flows is the order of its <outgoing> children, not the
+	// document order of the flows)
+	flows := p.Flows
+	if p.HasTag("flows-reversed") {
+		flows = make([]prog.Flow, 0, len(p.Flows))
+		for i := len(p.Flows) - 1; i >= 0; i-- {
+			flows = append(flows, p.Flows[i])
+		}
+	}
+	for _, f := range flows {
 		src := p.Node(f.Src)
 		fsc := src.Scope
 		if fsc != sc {
